@@ -56,20 +56,36 @@ def to_smt2(formulas):
     return txt + "\n(check-sat)\n"
 
 
+def guarded_check(s, timeout_ms):
+    """s.check(); a z3 exception (resource limits) counts as unknown.  (A wall-clock watchdog through Context.interrupt() was tried
+    and removed: an interrupt that lands between two API calls crashed z3 5.1.)"""
+    try:
+        return s.check()
+    except z3.Z3Exception:
+        return z3.unknown
+
+
+WATCHDOG = {"fired": 0}
+
+
 def check_inproc(formulas, timeout_ms):
     s = z3.Solver()
     s.set("timeout", int(timeout_ms))
     for f in formulas:
         s.add(f)
     t = time.time()
-    r = s.check()
+    r = guarded_check(s, timeout_ms)
     dt = time.time() - t
     _note("z3-5.1-api", dt)
     if r == z3.sat:
         return Result("sat", s.model(), "z3-5.1-api", dt)
     if r == z3.unsat:
         return Result("unsat", None, "z3-5.1-api", dt)
-    return Result("unknown", None, "z3-5.1-api", dt, s.reason_unknown())
+    try:
+        why = s.reason_unknown()
+    except z3.Z3Exception:
+        why = "interrupted"
+    return Result("unknown", None, "z3-5.1-api", dt, why)
 
 
 def _run_cli(cmd, path, timeout_s, name):
@@ -156,7 +172,192 @@ def check(formulas, tier="quick", want_model=True):
     return r2
 
 
+# ---- independence decomposition --------------------------------------------------------------------------------------------------
+# A query is a conjunction.  Conjuncts that share no uninterpreted CONSTANT are independent: if one group is unsat the query is unsat
+# (sound unconditionally), and if every group is sat the group models are pinned and re-checked against the WHOLE query (so an
+# interaction through uninterpreted functions cannot produce a wrong `sat`); anything else falls back to the undecomposed query.
+_SYM_CACHE = {}
+_COMP_CACHE = {}
+DECOMP_STATS = {"queries": 0, "decomposed": 0, "comp_hits": 0, "comp_solved": 0, "fallback": 0}
+
+
+def _consts(f):
+    k = f.get_id()
+    hit = _SYM_CACHE.get(k)
+    if hit is not None and hit[0].eq(f):
+        return hit[1]
+    out = set()
+    seen = set()
+    st = [f]
+    while st:
+        x = st.pop()
+        i = x.get_id()
+        if i in seen:
+            continue
+        seen.add(i)
+        if z3.is_quantifier(x):
+            st.append(x.body())
+            continue
+        if z3.is_app(x):
+            if x.num_args() == 0 and x.decl().kind() == z3.Z3_OP_UNINTERPRETED:
+                out.add(x.decl().name())
+            else:
+                st.extend(x.children())
+    out = frozenset(out)
+    _SYM_CACHE[k] = (f, out)
+    return out
+
+
+def components(formulas):
+    """partition into groups connected by shared constants; const-free formulas form one group of their own"""
+    parent = {}
+
+    def find(a):
+        while parent.get(a, a) != a:
+            parent[a] = parent.get(parent[a], parent[a])
+            a = parent[a]
+        return a
+    ground = []
+    syms = []
+    for f in formulas:
+        cs = _consts(f)
+        syms.append(cs)
+        if not cs:
+            ground.append(f)
+            continue
+        cs = list(cs)
+        r = find(cs[0])
+        for c in cs[1:]:
+            r2 = find(c)
+            if r2 != r:
+                parent[r2] = r
+    groups = {}
+    for f, cs in zip(formulas, syms):
+        if cs:
+            groups.setdefault(find(next(iter(cs))), []).append(f)
+    out = list(groups.values())
+    if ground:
+        out.append(ground)
+    return out
+
+
+def _comp_key(fs):
+    return tuple(sorted(f.get_id() for f in fs))
+
+
+def _comp_lookup(fs):
+    k = _comp_key(fs)
+    hit = _COMP_CACHE.get(k)
+    if hit is not None and len(hit[0]) == len(fs) and all(any(a.eq(b) for b in hit[0]) for a in fs):
+        DECOMP_STATS["comp_hits"] += 1
+        return hit[1]
+    return None
+
+
+def _comp_store(fs, r):
+    if r.status != "unknown":
+        _COMP_CACHE[_comp_key(fs)] = (list(fs), r)
+
+
+def _merge_models(formulas, comps, results, timeout_ms):
+    s = z3.Solver()
+    s.set("timeout", int(timeout_ms))
+    for f in formulas:
+        s.add(f)
+    for r in results:
+        m = r.model
+        if m is None:
+            return None
+        for d in m.decls():
+            if d.arity() == 0:
+                try:
+                    s.add(d() == m[d])
+                except z3.Z3Exception:
+                    pass
+    if guarded_check(s, timeout_ms) == z3.sat:
+        return s.model()
+    return None
+
+
 def check_many(queries, tier="quick"):
+    """Decomposed front end of the portfolio (see above); `_check_many_whole` is the undecomposed portfolio."""
+    b = BUDGET[tier]
+    out = [None] * len(queries)
+    plan = []
+    flat = []           # component formula-lists still to be solved
+    flat_ix = {}
+    for qi, q in enumerate(queries):
+        DECOMP_STATS["queries"] += 1
+        comps = components(q)
+        if len(comps) <= 1:
+            plan.append(None)
+            continue
+        DECOMP_STATS["decomposed"] += 1
+        slots = []
+        for c in comps:
+            hit = _comp_lookup(c)
+            if hit is not None:
+                slots.append(hit)
+            else:
+                k = _comp_key(c)
+                if k not in flat_ix:
+                    flat_ix[k] = len(flat)
+                    flat.append(c)
+                slots.append(("pending", flat_ix[k]))
+        plan.append((comps, slots))
+    whole = [qi for qi, pl in enumerate(plan) if pl is None]
+    if flat:
+        DECOMP_STATS["comp_solved"] += len(flat)
+        ans = _check_many_whole(flat, tier, want_model=True)
+        for c, r in zip(flat, ans):
+            _comp_store(c, r)
+    else:
+        ans = []
+    for qi, pl in enumerate(plan):
+        if pl is None:
+            continue
+        comps, slots = pl
+        rs = [ans[x[1]] if isinstance(x, tuple) else x for x in slots]
+        uns = [r for r in rs if r.status == "unsat"]
+        if uns:
+            out[qi] = Result("unsat", None, uns[0].solver, sum(r.seconds for r in rs if not getattr(r, "_counted", False)))
+            continue
+        if all(r.status == "sat" for r in rs):
+            m = _merge_models(queries[qi], comps, rs, b["inproc_ms"])
+            if m is not None:
+                out[qi] = Result("sat", m, "+".join(sorted(set(r.solver or "" for r in rs))), sum(r.seconds for r in rs))
+                continue
+        DECOMP_STATS["fallback"] += 1
+        whole.append(qi)
+    if whole:
+        ans2 = _check_many_whole([queries[i] for i in whole], tier)
+        for i, r in zip(whole, ans2):
+            out[i] = r
+    return out
+
+
+def check_decomposed(formulas, timeout_ms):
+    """in-process only (covers, feasibility-like uses): decomposed check with the given per-component budget"""
+    comps = components(formulas)
+    if len(comps) <= 1:
+        return check_inproc(formulas, timeout_ms)
+    rs = []
+    for c in comps:
+        r = _comp_lookup(c)
+        if r is None:
+            r = check_inproc(c, timeout_ms)
+            _comp_store(c, r)
+        if r.status == "unsat":
+            return r
+        rs.append(r)
+    if all(r.status == "sat" for r in rs):
+        m = _merge_models(formulas, comps, rs, timeout_ms)
+        if m is not None:
+            return Result("sat", m, "z3-5.1-api", sum(r.seconds for r in rs))
+    return check_inproc(formulas, timeout_ms)
+
+
+def _check_many_whole(queries, tier="quick", want_model=True):
     """queries: list of formula-lists.  In-process z3 first (sequential, cheap); what it leaves unknown is sent as
     SMT-LIB text to the CLI portfolio, all leftovers concurrently."""
     out = [None] * len(queries)
